@@ -209,18 +209,20 @@ impl<'ast> Visit<'ast> for Walker {
     fn visit_local(&mut self, l: &'ast syn::Local) {
         if let Some(init) = &l.init {
             self.visit_expr(&init.expr);
-            let name = match &l.pat {
-                Pat::Ident(pi) => Some(pi.ident.to_string()),
+            let (name, mutable) = match &l.pat {
+                Pat::Ident(pi) => (Some(pi.ident.to_string()), pi.mutability.is_some()),
                 Pat::Type(t) => match &*t.pat {
-                    Pat::Ident(pi) => Some(pi.ident.to_string()),
-                    _ => None,
+                    Pat::Ident(pi) => (Some(pi.ident.to_string()), pi.mutability.is_some()),
+                    _ => (None, false),
                 },
-                _ => None,
+                _ => (None, false),
             };
             if let Some(name) = name {
                 self.locals.remove(&name);
                 let r = self.translate(&init.expr);
-                if let Ok((lean, ps)) = &r {
+                // a `let mut` local may be assigned again (in a loop, in a branch): its initial value is
+                // recorded, but later reads of it are reads of a variable, not of that value
+                if let (Ok((lean, ps)), false) = (&r, mutable) {
                     self.locals.insert(name.clone(), (lean.clone(), ps.clone()));
                 }
                 if r.is_ok() {
@@ -232,6 +234,16 @@ impl<'ast> Visit<'ast> for Walker {
 
     fn visit_expr_assign(&mut self, a: &'ast syn::ExprAssign) {
         visit::visit_expr_assign(self, a);
+        if let Expr::Path(p) = &*a.left {
+            if let Some(id) = p.path.get_ident() {
+                let name = id.to_string();
+                self.locals.remove(&name);
+                let r = self.translate(&a.right);
+                if r.is_ok() {
+                    self.push("assign", name, r, a.to_token_stream().to_string());
+                }
+            }
+        }
         if let Some((obj, field)) = Walker::self_field(&a.left) {
             let r = self.translate(&a.right);
             self.push("assign", field.clone(), r, a.to_token_stream().to_string());
@@ -245,6 +257,31 @@ impl<'ast> Visit<'ast> for Walker {
             BinOp::SubAssign(_) => Some("-"),
             _ => None,
         };
+        if let (Some(op), Expr::Path(p)) = (op, &*b.left) {
+            if let Some(id) = p.path.get_ident() {
+                let name = id.to_string();
+                self.locals.remove(&name);
+                let r = self.translate(&b.right).map(|(rhs, mut ps)| {
+                    if !ps.iter().any(|(n, _)| n == &name) {
+                        ps.push((name.clone(), "Nat".to_string()));
+                        ps.sort();
+                    }
+                    let w = match self.width {
+                        Width::W16 => "16",
+                        Width::W32 => "32",
+                        Width::Usize => "64",
+                    };
+                    if op == "+" {
+                        (format!("({} + {})", name, rhs), ps)
+                    } else {
+                        (format!("(psub{} {} {})", w, name, rhs), ps)
+                    }
+                });
+                if r.is_ok() {
+                    self.push("assign", name, r, b.to_token_stream().to_string());
+                }
+            }
+        }
         if let (Some(op), Some((obj, field))) = (op, Walker::self_field(&b.left)) {
             let r = self.translate(&b.right).map(|(rhs, mut ps)| {
                 let p = format!("{}_{}", obj, sanitize(&field));
